@@ -158,6 +158,22 @@ def judgePowInt (a : D128) (n : Int) (r : D128R) : Option Bool :=
       some (decide (d.neg = neg ∨ d.coeff = 0) && decide (diff ≤ tol))
     | _ => none
 
+/-- Does the exact integer power `a ^ n` lie in the range of normal decimal128 numbers
+(`10^-6143 ≤ |a^n| < 10^6145`)?  `none`: zero base or huge exponent (not judged). -/
+def powIntInRange (a : D128) (n : Int) : Option Bool :=
+  if a.coeff == 0 ∨ n.natAbs * natDigitsCount a.coeff > 40000 then none
+  else
+    let k := n.natAbs
+    let p := a.coeff ^ k
+    -- |a^n| = p · 10^(a.exp·k) resp. 1/p · 10^(-a.exp·k): exponent of the leading digit
+    let lead : Int :=
+      if n ≥ 0 then (natDigitsCount p : Int) - 1 + a.exp * k
+      else
+        -- 1/p ∈ (10^-d, 10^-(d-1)] with d = digits p: leading exponent is -d, or -(d-1) when p is a power of ten
+        let d := natDigitsCount p
+        (if p == 10 ^ (d - 1) then -((d : Int) - 1) else -(d : Int)) - a.exp * k
+    some (decide (-6143 ≤ lead) && decide (lead ≤ 6144))
+
 def feelOp (name : String) (x : D128R) (y : Option D128R) (k : Option Int) : Option String :=
   match name, y, k with
   | "add", some y, _ => some (showR (FNum.add x y))
@@ -210,6 +226,13 @@ def handle (args : List Sexp) : String :=
       | some v => s!"(judge {boolStr v})"
       | none => "(judge na)"
     | _, _, _ => "(error bad-operand)"
+  | [.atom "powrange", a, n] =>
+    match dec? a, Sexp.int? n with
+    | some a, some n =>
+      match powIntInRange a n with
+      | some v => s!"(range {boolStr v})"
+      | none => "(range na)"
+    | _, _ => "(error bad-operand)"
   | [.atom "judgeln", a, r] =>
     match dec? a, decR? r with
     | some a, some (.fin d) =>
